@@ -43,7 +43,7 @@ def parseStmt (s : String) : Option Stmt :=
   | 'D' => tl.toNat?.map .dropTable
   | 'M' => match nats tl with | some [t, c] => some (.commentOn t c) | _ => none
   | 'S' => tl.toNat?.map .createSchema
-  | 'V' => tl.toNat?.map .createView
+  | 'V' => match nats tl with | some [v] => some (.createView v) | some [v, c] => some (.createViewC v c) | _ => none
   | 'B' => (String.ofList (tl.toList.takeWhile Char.isDigit)).toNat?.map .createDatabase   -- `B<d>q`: the name written quoted (upper case)
   | 'i' => match nats tl with | some [t, k, v] => some (.dml t (.ins k v)) | _ => none
   | 'u' => match nats tl with | some [t, k, v] => some (.dml t (.upd k v)) | _ => none
